@@ -1,7 +1,7 @@
 import GmQuic.Drv.Core
 import GmQuic.Model.Pn
 import GmQuic.Model.SentJournal
-/-! Line driver for C07: `C07pn` (packet-number codec, exact), `C07r` (receiver `decode_pn`). -/
+/-! Line driver for C07: `C07pn` (packet-number codec, exact), `C07j` (sent journal, exact), `C07r` (receiver `decode_pn`). -/
 namespace GmQuic.Drv.C07
 open GmQuic.Drv GmQuic.Pn
 
@@ -136,6 +136,39 @@ def stepJ (s : State) (op : List String) : State × String :=
 def modelJ : Model State := { init := SentJournal.init, step := exact stepJ }
 end J
 
-def entries : List (String × IO UInt32) := [("C07pn", runModel modelPn), ("C07j", runModel modelJ)]
+/-! ### C07r: receiver `decode_pn` (exact) + rotation (relational: the implementation chooses how far) -/
+def decPnStr : DecodePn → String
+  | .ok n => s!"ok {n}"
+  | .tooOld => "TooOld"
+  | .duplicate => "Dup"
+  | .panic st => siteStr st
+
+def stepR (r : Rcvd) (op obs : List String) : Rcvd × Option String :=
+  match op with
+  | ["decpn", v, x] =>
+    match x.toNat? with
+    | some x =>
+      match mkPn v x with
+      | some e =>
+        let mine := decPnStr (r.decodePn e)
+        (r, if mine == " ".intercalate obs then none else some mine)
+      | none => (r, some "BAD decpn variant")
+    | none => (r, some "BAD decpn args")
+  | ["rcvd", a] =>
+    match a.toNat? with
+    | some pn => (r.onRcvd pn, if obs == ["ok"] then none else some "ok")
+    | none => (r, some "BAD rcvd args")
+  | ["slide"] =>
+    match kvNat obs "off" with
+    | some off =>
+      if r.offset ≤ off ∧ off ≤ r.largest then (r.slide (off - r.offset), none)
+      else (r, some s!"illegal rotation: offset {r.offset} largest {r.largest}")
+    | none => (r, some "BAD slide obs")
+  | _ => (r, some "BAD op")
+
+def modelR : Model Rcvd := { init := {}, step := stepR }
+
+def entries : List (String × IO UInt32) :=
+  [("C07pn", runModel modelPn), ("C07j", runModel modelJ), ("C07r", runModel modelR)]
 
 end GmQuic.Drv.C07
